@@ -497,7 +497,110 @@ def queries(res, part, objs, ref, T, pool, ctx, deep_none=True):
     return nq
 
 
+def eval_long(case):
+    """one long timeline (magnitude dimension): N notes, each `step` divisions long, `gap` divisions apart, starting
+    at `base`; the structural clauses and the neighbour / range queries of the statement on the whole timeline, after
+    adding everything, after removing every other note, and after removing the rest"""
+    import sys
+    import partitura.score as S
+
+    res = CaseResult(states=0, transitions=0, traces=1)
+    N, step, gap, base = case["N"], case["step"], case["gap"], case["base"]
+    ctx = "long N=%d step=%d gap=%d base=%d" % (N, step, gap, base)
+    limit0 = sys.getrecursionlimit()
+    part = S.Part("P1")
+    notes = []
+
+    def fail(clause, expected, observed, where):
+        res.fail(clause, expected=expected, observed=observed, where=where, detail=ctx)
+
+    def check(tag, present):
+        """present: list of (note, start, end) that must be on the timeline"""
+        res.states += 1
+        c = ctx + " " + tag
+        times = sorted(set(t for _n, a, b in present for t in (a, b)))
+        pts = list(part._points)
+        got = [int(p.t) for p in pts]
+        if got != times:
+            fail("points-sorted-distinct-nonempty", times[:5] + ["..."] + times[-5:], got[:5] + ["..."] + got[-5:], "Part._points " + tag)
+            return
+        for i, p in enumerate(pts):
+            if (p.prev is not (pts[i - 1] if i else None)) or (p.next is not (pts[i + 1] if i + 1 < len(pts) else None)):
+                fail("prev-next-links", "neighbours in the array", "link mismatch at index %d" % i, "TimePoint.prev/next " + tag)
+                return
+        if not pts:
+            if part.first_point is not None or part.last_point is not None:
+                fail("first-last-point", None, "not None", "Part.first_point " + tag)
+            return
+        if part.first_point is not pts[0] or part.last_point is not pts[-1]:
+            fail("first-last-point", "ends of the array", "other", "Part.first_point " + tag)
+        exp_ids = [id(n) for n, a, b in sorted(present, key=lambda x: x[1])]
+        try:
+            allq = [id(o) for o in part.iter_all(S.Note)]
+            fwd = [id(o) for o in pts[0].iter_next(S.Note, eq=True)]
+            bwd = [id(o) for o in pts[-1].iter_prev(S.Note, eq=True)]
+            mid = pts[len(pts) // 2]
+            fwd_mid = [id(o) for o in mid.iter_next(S.Note)]
+            a, b = times[len(times) // 4], times[(3 * len(times)) // 4]
+            win = [id(o) for o in part.iter_all(S.Note, a, b)]
+            win_end = [id(o) for o in part.iter_all(S.Note, a, b, mode="ending")]
+        except Exception as ex:  # noqa
+            res.fail("queries-total", kind="exception", where=innermost_partitura_frame(ex), observed=exc_text(ex), detail=c)
+            return
+        res.transitions += 6
+        if allq != exp_ids:
+            fail("iter_all-order", len(exp_ids), len(allq), "Part.iter_all " + tag)
+        if fwd != exp_ids:
+            fail("iter_next-complete", len(exp_ids), len(fwd), "TimePoint.iter_next " + tag)
+        if sorted(bwd) != sorted(exp_ids) or len(bwd) != len(exp_ids):
+            fail("iter_prev-complete", len(exp_ids), len(bwd), "TimePoint.iter_prev " + tag)
+        exp_mid = [id(n) for n, s0, e0 in sorted(present, key=lambda x: x[1]) if s0 > mid.t]
+        if fwd_mid != exp_mid:
+            fail("iter_next-strictly-later", len(exp_mid), len(fwd_mid), "TimePoint.iter_next " + tag)
+        exp_win = [id(n) for n, s0, e0 in sorted(present, key=lambda x: x[1]) if a <= s0 < b]
+        if win != exp_win:
+            fail("iter_all-window", len(exp_win), len(win), "Part.iter_all[start,end) " + tag)
+        exp_we = sorted(id(n) for n, s0, e0 in present if a <= e0 < b)
+        if sorted(win_end) != exp_we:
+            fail("iter_all-window-ending", len(exp_we), len(win_end), "Part.iter_all[mode=ending] " + tag)
+        for n, s0, e0 in (present[0], present[len(present) // 2], present[-1]):
+            if n.start is None or n.end is None or n.start.t != s0 or n.end.t != e0:
+                fail("object-positions", [s0, e0], [getattr(n.start, "t", None), getattr(n.end, "t", None)], "TimedObject.start/end " + tag)
+
+    present = []
+    try:
+        for i in range(N):
+            n = S.Note("C", 4, id="n%d" % i)
+            s0 = base + i * (step + gap)
+            part.add(n, s0, s0 + step)
+            notes.append(n)
+            present.append((n, s0, s0 + step))
+        res.transitions += N
+        check("after adding", present)
+        if not res.violations:
+            keep = [x for k, x in enumerate(present) if k % 2 == 0]
+            for k, (n, _a, _b) in enumerate(present):
+                if k % 2:
+                    part.remove(n)
+            res.transitions += N // 2
+            check("after removing every other note", keep)
+        if not res.violations:
+            for n, _a, _b in keep:
+                part.remove(n)
+            res.transitions += len(keep)
+            check("after removing everything", [])
+    except Exception as ex:  # noqa
+        res.fail("operation-total", kind="exception", where=innermost_partitura_frame(ex), observed=exc_text(ex), detail=ctx)
+    if sys.getrecursionlimit() != limit0:
+        sys.setrecursionlimit(limit0)
+    res.outcome = "long:%d" % N
+    res.nontrivial = True
+    return res
+
+
 def eval_case(case):
+    if case.get("k") == "long":
+        return eval_long(case)
     pool = case["pool"]
     hist = case["hist"]
     T = list(range(case["T"]))
@@ -551,7 +654,17 @@ def eval_case(case):
 
 
 def spaces(tier, seed):
-    return []  # the BFS levels are produced dynamically by explore()
+    # (the BFS levels are produced dynamically by explore())
+    # magnitude dimension: the same kind of timeline at a scale that small grids never reach (more than 1000 time
+    # points: the default recursion limit; large time values)
+    from mc.core import Space
+
+    Ns = [1, 2, 30, 1100] if tier == "quick" else [1, 2, 30, 300, 1100, 2600]
+    longs = [dict(k="long", N=N, step=st, gap=g, base=b) for N in Ns for (st, g) in ((1, 0), (2, 1), (480, 0)) for b in (0, 2 ** 31 + 1)]
+    return [Space("long-timeline", longs, True,
+                        "N=%s notes in a row x (length, gap) in {(1,0),(2,1),(480,0)} x first onset {0, 2^31+1}: points, links, "
+                        "iter_all / iter_next / iter_prev over the whole timeline and a window, after adding, after removing every "
+                        "other note and after removing everything" % Ns)]
 
 
 POOLS_QUICK = ["NNG", "NRL", "GTL", "NML", "RTL", "SML"]
